@@ -229,24 +229,27 @@ fn main() {
 
     if args.mode == "templates" {
         let list = templates::all(&args.prop, args.cancelable);
+        let share = args.time_limit / list.len().max(1) as f64;
         for (ti, tpl) in list.iter().enumerate() {
-            if stop {
-                break;
-            }
-            // depth-first enumeration of all scheduler decisions by re-execution
+            let t_tpl = Instant::now();
+            // depth-first enumeration of all scheduler decisions by re-execution; when the space
+            // is too large for the time share, the rest of the share samples schedules at random
             let mut script: Vec<u8> = vec![];
             let mut runs = 0usize;
             let mut exhaustive = true;
-            let budget = tpl.budget;
+            let dfs_budget = tpl.budget;
+            let mut opts = tpl.opts.clone();
+            if tpl.mode == SchedMode::Placed {
+                opts.cyield = 0;
+            }
             loop {
-                if t_start.elapsed().as_secs_f64() > args.time_limit {
-                    stop = true;
+                if t_tpl.elapsed().as_secs_f64() > share * 0.6 {
                     exhaustive = false;
                     break;
                 }
                 let prog = (tpl.build)();
                 let mut ch = ScriptChooser::new(script.clone());
-                let ex = run_program(&mut eng, &prog, SchedMode::Stepped, &mut ch, tpl.opts.clone());
+                let ex = run_program(&mut eng, &prog, tpl.mode, &mut ch, opts.clone());
                 for (_, op) in &prog.ops {
                     *ops_by_kind.entry(op.kind_name().to_string()).or_insert(0) += 1;
                 }
@@ -268,14 +271,31 @@ fn main() {
                     Some(s) => script = s,
                     None => break,
                 }
-                if runs >= budget {
+                if runs >= dfs_budget {
                     exhaustive = false;
                     break;
                 }
             }
+            let mut sampled = 0usize;
+            if !exhaustive {
+                let mut prng = Rng::new(args.seed ^ (ti as u64) << 32);
+                while t_tpl.elapsed().as_secs_f64() < share {
+                    let prog = (tpl.build)();
+                    let mut ch = RandomChooser::new(prng.fork(sampled as u64));
+                    ch.p_step = 350 + (sampled as u32 * 37) % 400;
+                    ch.p_cycle = 100 + (sampled as u32 * 53) % 500;
+                    ch.p_at_send = ch.p_cycle;
+                    ch.p_flush = 0;
+                    ch.p_final_flush = 0;
+                    let ex = run_program(&mut eng, &prog, tpl.mode, &mut ch, opts.clone());
+                    sampled += 1;
+                    handle(&prog, ex, false, ti, tpl.name, &mut collect_base, &mut samples, &mut violations);
+                }
+            }
             programs += 1;
-            template_stats.push(json!({"template": tpl.name, "schedules": runs, "exhaustive": exhaustive}));
+            template_stats.push(json!({"template": tpl.name, "schedules_enumerated": runs, "exhaustive": exhaustive, "schedules_sampled": sampled}));
         }
+        let _ = &mut stop;
     } else {
         for k in 0..args.programs {
             if t_start.elapsed().as_secs_f64() > args.time_limit {
@@ -288,7 +308,7 @@ fn main() {
                 *ops_by_kind.entry(op.kind_name().to_string()).or_insert(0) += 1;
             }
             let mut ch = RandomChooser::new(prng.fork(7));
-            let opts = RunOpts { max_cycles: 4, max_steps: 60, park_in_stepped: prng.chance(1, 3), no_flush: mode == SchedMode::Stepped };
+            let opts = RunOpts { max_cycles: 4, max_steps: 60, park_in_stepped: prng.chance(1, 3), no_flush: mode == SchedMode::Stepped, ..RunOpts::default() };
             let ex = run_program(&mut eng, &prog, mode, &mut ch, opts);
             programs += 1;
             handle(&prog, ex, mode == SchedMode::Placed, k, "random", &mut collect_base, &mut samples, &mut violations);
